@@ -743,8 +743,8 @@ def realise_work(item):
             cls, exc = realise_on(shared, s)[:2]
             ncalls += 1
             hist["compiled_shared:%s%s" % (cls, (":" + exc) if cls in ("type_or_value", "escape") else "")] += 1
-            if cls == "escape" and fresh[s][0] != "escape":
-                # (an escape that the fresh FFI shows too is reported once, by the fresh case)
+            if cls == "escape" and fresh[s] != (cls, exc):
+                # (the same escape on the fresh FFI is reported once, by the fresh case)
                 badseq.append(("shared", calls[:i + 1], exc))
             if fresh[s] != (cls, exc):
                 hist["compiled_shared:answer_differs_from_fresh_ffi"] += 1
@@ -882,8 +882,8 @@ def seq_work(item):
             if s not in cache:
                 cache[s] = realise_one(s)[:2]
             ref = cache[s]
-            if cls == "escape" and ref[0] != "escape":
-                # (an escape that the fresh FFI shows too is reported once, by the fresh case)
+            if cls == "escape" and ref != (cls, exc):
+                # (the same escape on the fresh FFI is reported once, by the fresh case)
                 bad.append((kind, calls[:i + 1], exc))
         if ref != (cls, exc):
             hist["compiled_%s:answer_differs_from_%s" % (kind, "first_call" if kind == "api" else "fresh_ffi")] += 1
@@ -1090,7 +1090,7 @@ def run(ctx):
     # detection; the evidence then says so and is not marked exhaustive)
     phases = set(getattr(ctx, "opts", {}).get("phases", "c,real,py").split(","))
     # sym2: the keyword alphabet (30 symbols), one symbol shorter than the main pass
-    passes = [("sym", maxlen, accmax), ("sym2", maxlen - 1, accmax), ("bytes", 3, 3)]
+    passes = [("sym", maxlen, accmax), ("sym2", maxlen - 1, 4), ("bytes", 3, 3)]
     if not quick:
         passes.append(("ascii", 4, 4))
     # explicit strings: every standard / common type name and keyword with every one-character edit
@@ -1597,7 +1597,13 @@ def replay(detail):
         sys.stdout.flush()
         pid = os.fork()
         if pid == 0:
+            if "strings" in detail and kind != "shared":
+                seq_work((kind, detail["strings"]))       # exactly what the worker did when it died
+            elif "strings" in detail:
+                realise_work([(s_, None) for s_ in detail["strings"]])
             res = run_calls(kind, calls)
+            import gc
+            gc.collect()
             esc = [(s_, r_[1]) for s_, r_ in zip(calls, res) if r_[0] == "escape"]
             os.write(1, ("  -> %s\n" % (esc[-1:] or res[-1:],)).encode())
             os._exit(7 if res and res[-1][0] == "escape" else 0)
